@@ -10,6 +10,40 @@ import json, os, time
 from collections import Counter
 import lib
 
+def cache_trace_oracle(fields, impl, model):
+    """C14: per invocation the observable (real?, completion) is fixed by the property (the model's
+    theorems: served = normalised most recent stored result under the same name within the timeout;
+    real iff no usable entry).  Classify every deviation of the implementation's trace."""
+    def ops(x):
+        out, cur = [], []
+        for f in x[1:]:
+            if f == b";":
+                out.append(cur)
+                cur = []
+            else:
+                cur.append(f)
+        return out
+    if impl and impl[0] == b"panic":
+        return [("panic", b"")]
+    a, b = ops(impl), ops(model)
+    tags = []
+    for i, (x, y) in enumerate(zip(a, b)):
+        if x == y:
+            continue
+        if x[0] == b"0" and y[0] == b"1":
+            tags.append(("served-without-usable-entry", str(i).encode()))
+        elif x[0] == b"1" and y[0] == b"0":
+            tags.append(("real-invocation-despite-usable-entry", str(i).encode()))
+        elif x[0] == b"0":
+            tags.append(("wrong-entry-served", str(i).encode()))
+        else:
+            tags.append(("real-result-altered", str(i).encode()))
+        break
+    if not tags and len(a) != len(b):
+        tags.append(("trace-length", b""))
+    return tags
+
+
 # pid -> list of streams; each stream: harness name, model runner, oracle runner, counts
 PROPS = {
     "C11": dict(streams=[dict(harness="multiparts", model="multiparts", oracle="multiparts_oracle", quick=6000, thorough=200000)],
@@ -39,7 +73,7 @@ PROPS = {
                      "times (truncation at any byte, byte flips, key replacement incl. case variants, type swaps, extra / duplicate keys, trailing "
                      "garbage, fragments, null elements, wrapping); non-trivial = a round trip with content or a mutated document that is still accepted"),
     "C14": dict(streams=[dict(harness="cache", model="cache", oracle=None, quick=600, thorough=40000,
-                             oracle_py=lambda f, impl: [("panic", b"")] if impl and impl[0] == b"panic" else [],
+                             oracle_cmp=cache_trace_oracle,
                              nontrivial=lambda f, impl: impl.count(b";") >= 2)],
                 tie="Model/Cache.v (step: File / Load / LoadE / WriteE / Action.Cache) <-> real Action.Cache at five call sites on a scratch XDG_CACHE_HOME",
                 rule="cases = histories of 3-12 operations: cached invocations at 3 call sites with 0-2 keys (values incl. the separator bytes, keys "
@@ -90,6 +124,8 @@ def explore(pid, ctx):
                     equal += 1
                 else:
                     tie_broken.append(dict(index=i, stream=st["harness"], case=fields, impl=impl, model=mo))
+            if st.get("oracle_cmp") and mo is not None:
+                oo = [b"OK"] + [k.encode() + b":" + d for k, d in st["oracle_cmp"](fields, impl, mo)]
             if oo is None or not oo or oo[0] != b"OK":
                 failures.append(dict(index=i, kind="oracle-error", shell=st["harness"], detail=b"", case=fields, impl=impl))
                 continue
@@ -165,7 +201,10 @@ def replay(pid, payload, ctx):
     res = rerun(st, fields)
     if res is None:
         return [dict(kind="replay-error", shell=stream, detail=b"", case=fields, impl=[])], None
-    if st.get("oracle"):
+    if st.get("oracle_cmp"):
+        mo = lib.run_model([(st["model"], fields)])[0]
+        oo = [b"OK"] + [k.encode() + b":" + d for k, d in st["oracle_cmp"](fields, res, mo)] if mo is not None else None
+    elif st.get("oracle"):
         oo = lib.run_model([(st["oracle"], fields + [b"|"] + res)])[0]
     else:
         oo = [b"OK"] + [k.encode() + b":" + d for k, d in st["oracle_py"](fields, res)] if st.get("oracle_py") else [b"OK"]
